@@ -161,13 +161,16 @@ def wrapper (env : Env) (qsvs : Qsvs) (oi : OpInfo) (t : Tensor) (inbound : Bool
   let p : Option Param ←
     match given, tcfg with
     | none, some tc =>
+      -- repair D36: the min/max of a constant are always taken from its data under the granularity configured for THIS
+      -- operator (`init_tensor_min_max`; an empty constant has none), never from a calibration result that may have been
+      -- recorded under another recipe; only runtime tensors are looked up
       let mm : Qsv ←
-        match Py.dictGet? qsvs t.name with
+        match data with
+        | some d => if d.data.isEmpty then pure none else (do let r ← initMinMax env oi t d; pure (some r))
         | none =>
-          match data with
-          | some d => (do let r ← initMinMax env oi t d; pure (some r))
+          match Py.dictGet? qsvs t.name with
           | none => throw .valueError
-        | some e => pure e
+          | some e => pure e
       (do let r ← tensorQuantParams env oi mm tc data; pure (some r))
     | some (.uniform qp none), _ =>
       -- repair D21: a constant that borrows parameters still gets its quantized values
